@@ -343,7 +343,7 @@ def cases(tier):
           PerSample(3, 2), PerSample(4, 2), PerSample(2, 1)]
     if tier == "thorough":
         cs += [SegTree(8, "min"), SegTree(16, "sum"), PerAdd(6, 4), PerAdd(8, 3), PerAdd(7, 7, "one"),
-               PerUpdate(4, 3), PerUpdate(6, 2), PerSample(5, 1), PerSample(5, 2)]
+               PerUpdate(4, 3), PerUpdate(6, 2), PerSample(5, 1)]
     return cs
 
 
